@@ -67,6 +67,11 @@ CATALOGUE = [
                        {'n': 'x', 'd': _P('BOOLEAN'), 'opt': 'R'},
                        {'n': 'w', 'd': _P('UTF8', tags=[['I', 'P', 0]]), 'opt': 'D', 'dv': 'w'}]),
      [{'z': 1, 'x': True}, {'z': 1, 'y': '00', 'x': False, 'w': 'w'}, {'z': -1, 'x': True, 'w': 'v'}]),
+    # SET OF members that agree on a long prefix and differ only at the end (any bounded sort key ties them)
+    (_P('SETOF', of=_P('OCTETSTRING')),
+     [[{'rep': 'aa', 'n': 300, 'tail': '02'}, {'rep': 'aa', 'n': 300, 'tail': '01'}, {'rep': 'aa', 'n': 300}],
+      [{'rep': 'aa', 'n': 1100, 'tail': '02'}, {'rep': 'aa', 'n': 1100, 'tail': '01'}],
+      [{'rep': '5a', 'n': 70000, 'tail': '02'}, {'rep': '5a', 'n': 70000, 'tail': '01'}, {'rep': '5a', 'n': 70000, 'tail': '0100'}]]),
     # lazily instantiated nested containers (type/univ.py getComponentByPosition(instantiate=True))
     (_P('SEQ', fields=[{'n': 'id', 'd': _P('INTEGER'), 'opt': 'R'},
                        {'n': 'items', 'd': _P('SEQOF', of=_P('SEQ', fields=[{'n': 'a', 'd': _P('INTEGER'), 'opt': 'R'},
@@ -667,7 +672,7 @@ def execute(plan):
 
 
 def _h(x):
-    return x.hex()[:200] if isinstance(x, bytes) else repr(x)[:80]
+    return x.hex()[:200] if isinstance(x, bytes) else U.safe_repr(x, 80)
 
 
 def shrink_candidates(plan):
